@@ -4,6 +4,7 @@ from preflibtools.properties import requires_approval, requires_preference_type
 from preflibtools.properties import borda_scores, copeland_scores
 
 from collections import defaultdict
+from fractions import Fraction
 
 
 @requires_preference_type("soc", "toc", "soi", "toi")
@@ -110,7 +111,7 @@ def satisfaction_approval_winner(instance):
     scores = defaultdict(lambda: 0)
     for order, mult in instance.multiplicity.items():
         for a in order[0]:
-            scores[a] += mult / len(order[0])
+            scores[a] += Fraction(mult, len(order[0]))
     best_score = max(scores.values())
     return {a for a in scores if scores[a] == best_score}
 
